@@ -184,6 +184,8 @@ def parseDocWith (ev : Env) (strict : Bool) (s : Str) : Except XErr (IDoc × Str
       -- the recursion-depth guard of `element`: an element nested deeper than the limit fails, and
       -- with it every enclosing element and the document
       if maxDepth_element != 0 && c.elemDepth > maxDepth_element then .error .syntax else
+      -- the same guard on the groups of a content model (`children`)
+      if maxDepth_children != 0 && c.ntDepth N.children > maxDepth_children then .error .syntax else
       (match absDocument c with
        | .error e => .error e
        | .ok d => match checkDoc d with
